@@ -1251,48 +1251,6 @@ theorem nodup_broadcast (s : NodeSt) (hn : (s.pool.map (·.sid)).Nodup) (tags : 
       exact List.Nodup.sublist (List.Sublist.map _ List.filter_sublist) hn
     | a :: b :: r => simp at h
 
-theorem fanout_spec (s : NodeSt) (h : s.Agree) (space topic : String) :
-    (s.fanout space topic).Nodup ∧
-    ∀ sid, sid ∈ s.fanout space topic ↔
-      ∃ p, s.Reg sid space p ∧ segMatches (splitTopic p) (splitTopic topic) = true := by
-  simp only [NodeSt.fanout, NodeSt.getTrie]
-  cases ht : alookup space s.remote with
-  | none =>
-    refine ⟨by simp, fun sid => ?_⟩
-    simp only [List.not_mem_nil, false_iff]
-    rintro ⟨p, hr, _⟩
-    obtain ⟨t, ht'⟩ := h.trieHas sid space p hr
-    rw [ht] at ht'; cases ht'
-  | some t =>
-    have hme := fun p => (match_exact_aux t (h.trieReach space t ht) topic).2 p
-    simp only
-    split
-    · rename_i hemp
-      refine ⟨by simp, fun sid => ?_⟩
-      simp only [List.not_mem_nil, false_iff]
-      rintro ⟨p, hr, hm⟩
-      have : p ∈ t.matchTopic topic := (hme p).mpr ⟨(h.trieCount space t ht p).mpr ⟨sid, hr⟩, hm⟩
-      simp [List.isEmpty_iff] at hemp
-      rw [hemp] at this; simp at this
-    · refine ⟨nodup_broadcast s h.poolNodup _, fun sid => ?_⟩
-      rw [mem_broadcast]
-      constructor
-      · rintro ⟨tag, htag, st, hst, hin, hsid⟩
-        obtain ⟨p', hp', rfl⟩ := List.mem_map.mp htag
-        obtain ⟨hc, hm⟩ := (hme p').mp hp'
-        obtain ⟨sid', hr'⟩ := (h.trieCount space t ht p').mp hc
-        obtain ⟨sp'', p'', hr'', heq⟩ := (h.tags st hst _).mp hin
-        have := interestTag_inj (h.validReg _ _ _ hr') (h.validReg _ _ _ hr'') heq
-        obtain ⟨rfl, rfl⟩ := this
-        subst hsid
-        exact ⟨p', hr'', hm⟩
-      · rintro ⟨p, hr, hm⟩
-        have hp : p ∈ t.matchTopic topic := (hme p).mpr ⟨(h.trieCount space t ht p).mpr ⟨sid, hr⟩, hm⟩
-        obtain ⟨st, hst, hsid⟩ := h.inPool sid space p hr
-        subst hsid
-        exact ⟨interestTag space p, List.mem_map.mpr ⟨p, hp, rfl⟩, st, hst,
-          (h.tags st hst _).mpr ⟨space, p, hr, rfl⟩, rfl⟩
-
 theorem handlePublish_obs (s : NodeSt) (peer ident space topic msgIdent : String)
     (relayed idLenOk big : Bool) :
     (s.handlePublish peer ident space topic msgIdent relayed idLenOk big).2.delivered =
@@ -1356,108 +1314,6 @@ theorem handlePublish_state (s : NodeSt) (peer ident space topic msgIdent : Stri
   · simp
   split <;> (rename_i heq; have := rateAllow_state s peer; rw [heq] at this; simpa using this)
 
-/-! ### serving side: invariants -/
-
-theorem Reg_congr {s s' : NodeSt} (h : s'.streams = s.streams) (sid : Nat) (sp p : String) :
-    s'.Reg sid sp p ↔ s.Reg sid sp p := by simp [NodeSt.Reg, h]
-
-theorem Agree_congr {s s' : NodeSt} (hr : s'.remote = s.remote) (hs : s'.streams = s.streams)
-    (hp : s'.pool = s.pool) (h : s.Agree) : s'.Agree where
-  poolNodup := by rw [hp]; exact h.poolNodup
-  trieReach := fun sp t ht => h.trieReach sp t (by rw [← hr]; exact ht)
-  trieCount := fun sp t ht p => by
-    have := h.trieCount sp t (by rw [← hr]; exact ht) p
-    simpa [Reg_congr hs] using this
-  trieHas := fun sid sp p hreg => by
-    rw [hr]; exact h.trieHas sid sp p ((Reg_congr hs sid sp p).mp hreg)
-  tags := fun st hst tag => by
-    have := h.tags st (by rw [← hp]; exact hst) tag
-    simpa [Reg_congr hs] using this
-  inPool := fun sid sp p hreg => by
-    rw [hp]; exact h.inPool sid sp p ((Reg_congr hs sid sp p).mp hreg)
-  validReg := fun sid sp p hreg => h.validReg sid sp p ((Reg_congr hs sid sp p).mp hreg)
-
-theorem NoEmpty_congr {s s' : NodeSt} (hr : s'.remote = s.remote) (hs : s'.streams = s.streams)
-    (h : s.NoEmpty) : s'.NoEmpty where
-  streams := fun sid r hl => by
-    obtain ⟨sp, p, hreg⟩ := h.streams sid r (by rw [← hs]; exact hl)
-    exact ⟨sp, p, (Reg_congr hs sid sp p).mpr hreg⟩
-  remote := fun sp t ht => h.remote sp t (by rw [← hr]; exact ht)
-
-theorem Agree_empty (a b c : Nat) : ({ capSpace := a, capStream := b, burst := c } : NodeSt).Agree where
-  poolNodup := by simp
-  trieReach := by intro sp t h; simp [alookup] at h
-  trieCount := by intro sp t h; simp [alookup] at h
-  trieHas := by rintro sid sp p ⟨r, pats, h, _⟩; simp [nlookup] at h
-  tags := by intro st h; simp at h
-  inPool := by rintro sid sp p ⟨r, pats, h, _⟩; simp [nlookup] at h
-  validReg := by rintro sid sp p ⟨r, pats, h, _⟩; simp [nlookup] at h
-
-theorem NoEmpty_empty (a b c : Nat) : ({ capSpace := a, capStream := b, burst := c } : NodeSt).NoEmpty where
-  streams := by intro sid r h; simp [nlookup] at h
-  remote := by intro sp t h; simp [alookup] at h
-
-theorem poolStream_none_iff (s : NodeSt) (sid : Nat) :
-    s.poolStream sid = none ↔ ∀ st, st ∈ s.pool → st.sid ≠ sid := by
-  simp [NodeSt.poolStream, List.find?_eq_none]
-
-theorem Agree_openStream {s : NodeSt} (h : s.Agree) (sid : Nat) (peer ident : String)
-    (hf : s.poolStream sid = none) : (s.openStream sid peer ident).Agree where
-  poolNodup := by
-    have hf' := (poolStream_none_iff s sid).mp hf
-    simp only [NodeSt.openStream, List.map_append, List.map_cons, List.map_nil]
-    refine List.nodup_append.mpr ⟨h.poolNodup, by simp, ?_⟩
-    intro a ha b hb hab
-    simp at hb; subst hb; subst hab
-    obtain ⟨st, hst, hsid⟩ := List.mem_map.mp ha
-    exact hf' st hst hsid
-  trieReach := h.trieReach
-  trieCount := h.trieCount
-  trieHas := h.trieHas
-  tags := by
-    intro st hst tag
-    simp only [NodeSt.openStream, List.mem_append, List.mem_singleton] at hst
-    rcases hst with hst | hst
-    · exact h.tags st hst tag
-    · subst hst
-      simp only [List.not_mem_nil, false_iff]
-      rintro ⟨sp, p, hreg, _⟩
-      obtain ⟨st, hst, hsid⟩ := h.inPool sid sp p hreg
-      exact (poolStream_none_iff s sid).mp hf st hst hsid
-  inPool := by
-    intro sid' sp p hreg
-    obtain ⟨st, hst, hsid⟩ := h.inPool sid' sp p hreg
-    exact ⟨st, by simp [NodeSt.openStream, hst], hsid⟩
-  validReg := h.validReg
-
-/-- with the invariants in place, "nothing is registered any more" means every view is empty -/
-theorem clean_of_no_reg {s : NodeSt} (ha : s.Agree) (hn : s.NoEmpty)
-    (hw : ∀ sid sp p, ¬ s.Reg sid sp p) : s.Clean := by
-  have h1 : s.streams = [] := by
-    cases hs : s.streams with
-    | nil => rfl
-    | cons e rest =>
-      obtain ⟨sid, r⟩ := e
-      obtain ⟨sp, p, hreg⟩ := hn.streams sid r (by simp [hs, nlookup])
-      exact absurd hreg (hw sid sp p)
-  have h2 : s.remote = [] := by
-    cases hs : s.remote with
-    | nil => rfl
-    | cons e rest =>
-      obtain ⟨sp, t⟩ := e
-      have hl : alookup sp s.remote = some t := by simp [hs, alookup]
-      obtain ⟨p, hp⟩ := hn.remote sp t hl
-      obtain ⟨sid, hreg⟩ := (ha.trieCount sp t hl p).mp hp
-      exact absurd hreg (hw sid sp p)
-  have h3 : ∀ st, st ∈ s.pool → st.tags = [] := by
-    intro st hst
-    apply List.eq_nil_iff_forall_not_mem.mpr
-    intro tag htag
-    obtain ⟨sp, p, hreg, _⟩ := (ha.tags st hst tag).mp htag
-    exact hw _ sp p hreg
-  simp only [NodeSt.Clean, NodeSt.cleanB, Bool.and_eq_true, List.isEmpty_iff, List.all_eq_true]
-  exact ⟨⟨h2, h1⟩, fun st hst => by simp [h3 st hst]⟩
-
 theorem Trie.Reachable.size_eq {t : Trie} (h : t.Reachable) : t.size = liveLevel t.root := by
   induction h with
   | empty => simp [Trie.empty]
@@ -1472,5 +1328,97 @@ theorem Trie.Reachable.size_eq {t : Trie} (h : t.Reachable) : t.size = liveLevel
     have := liveLevel_removeLevel (splitTopic p) [] t'.root ht'.wf
     split <;> simp_all <;> omega
 
+
+/-! ### the trie interface used by the service proofs (they never unfold the trie) -/
+
+theorem live_le_of_mem {k : String} {n : Node} {l : Level} (h : (k, n) ∈ l) : n.live ≤ liveLevel l := by
+  induction l with
+  | nil => simp at h
+  | cons e rest ih =>
+    obtain ⟨k₀, n₀⟩ := e
+    rcases List.mem_cons.mp h with h | h
+    · cases h; simp
+    · have := ih h; simp; omega
+
+theorem live_pos_of_nodeAt {l : Level} {q : List String} {n : Node} (hq : nodeAt l q = some n)
+    (hr : n.refs > 0) : liveLevel l > 0 := by
+  induction q generalizing l with
+  | nil => simp [nodeAt] at hq
+  | cons a q ih =>
+    rw [nodeAt_cons] at hq
+    cases hl : lookup a l with
+    | none => simp [hl] at hq
+    | some n0 =>
+      simp only [hl, Option.bind_some] at hq
+      have hle := live_le_of_mem (mem_of_lookup hl)
+      rw [Node.live_eq n0] at hle
+      cases q with
+      | nil =>
+        simp [nodeUnder] at hq; subst hq
+        simp [hr] at hle; omega
+      | cons b r =>
+        simp only [nodeUnder] at hq
+        have := ih hq; omega
+
+/-- `Len() == 0` (what `pruneSpace` tests) says exactly that no pattern is registered -/
+theorem Trie.size_eq_zero_iff {t : Trie} (h : t.Reachable) : t.size = 0 ↔ ∀ p, t.count p = 0 := by
+  rw [h.size_eq]
+  constructor
+  · intro hz p
+    apply Classical.byContradiction
+    intro hp
+    have hp' : refsAt t.root (splitTopic p) > 0 := by simp only [Trie.count] at hp; omega
+    obtain ⟨n, hq, hr⟩ := (refsAt_pos_iff _ _).mp hp'
+    have := live_pos_of_nodeAt hq hr
+    omega
+  · intro hz
+    have hroot : t.root = [] := by
+      apply Classical.byContradiction
+      intro hne
+      obtain ⟨q, hq⟩ := exists_ref_of_ne_nil h.wf hne
+      obtain ⟨n, hn, hr⟩ := (refsAt_pos_iff _ _).mp hq
+      have hs : splitTopic n.pat = q := by simpa using pat_of_nodeAt h.wf hn hr
+      have := hz n.pat
+      simp only [Trie.count, hs] at this
+      omega
+    simp [hroot]
+
+theorem Trie.count_empty (p : String) : Trie.empty.count p = 0 := by
+  simp [Trie.count, Trie.empty]
+
+theorem Trie.size_empty : Trie.empty.size = 0 := rfl
+
+theorem Trie.count_add (t : Trie) (p q : String) :
+    (t.add p).1.count q = t.count q + (if q = p then 1 else 0) := by
+  simp only [Trie.add, Trie.count, refsAt_addLevel _ _ (splitTopic_ne_nil p)]
+  by_cases h : q = p
+  · simp [h]
+  · have : splitTopic q ≠ splitTopic p := fun h' => h (splitTopic_injective h')
+    simp [h, this]
+
+theorem Trie.count_remove (t : Trie) (p q : String) :
+    (t.remove p).1.count q = t.count q - (if q = p then 1 else 0) := by
+  simp only [Trie.remove, Trie.count, refsAt_removeLevel]
+  by_cases h : q = p
+  · simp [h]
+  · have : splitTopic q ≠ splitTopic p := fun h' => h (splitTopic_injective h')
+    simp [h, this]
+
+theorem Trie.Reachable.removeAll {t : Trie} (h : t.Reachable) (ps : List String) : (t.removeAll ps).Reachable := by
+  induction ps generalizing t with
+  | nil => exact h
+  | cons p rest ih => exact ih (Trie.Reachable.remove p h)
+
+theorem Trie.count_removeAll (t : Trie) (ps : List String) (q : String) :
+    (t.removeAll ps).count q = t.count q - ps.count q := by
+  induction ps generalizing t with
+  | nil => simp [Trie.removeAll]
+  | cons p rest ih =>
+    simp only [Trie.removeAll, List.foldl_cons] at ih ⊢
+    rw [ih, Trie.count_remove, List.count_cons]
+    by_cases h : q = p
+    · subst h; simp; omega
+    · have : ¬ p = q := fun hh => h hh.symm
+      simp [h, this]
 
 end AnySync.PubSub
